@@ -758,7 +758,7 @@ pub fn check(property: &str, tier: &str) -> i32 {
         "C03" => &[22, 3, 8, 14, 2 * NK + 22],
         "C01" => &[22, 4, 9, 13],
         "C08" => &[22, 9, 11, 24, 14, 27, 29, 30, 2 * NK + 22, NK + 22],
-        "C05" => &[8, 6],
+        "C05" => &[8, 6, 14, 2 * NK + 22],
         "C11" => &[20],
         "C16" => &[28, NK + 28],
         "C09" => &[22, 2 * NK + 22, NK + 22],
